@@ -1367,6 +1367,13 @@ class _ClassEnv(Env):
 
 
 def _is_generator(fnode) -> bool:
+    hit = getattr(fnode, "_nac_is_generator", None)      # memo lives on the AST node (nodes are replaced by overlays)
+    if hit is None:
+        hit = fnode._nac_is_generator = _is_generator_uncached(fnode)
+    return hit
+
+
+def _is_generator_uncached(fnode) -> bool:
     if isinstance(fnode, ast.Lambda):
         return False
     stack = list(fnode.body)
